@@ -24,7 +24,7 @@ RULE = (
 ASSUMPTIONS = ["all nodes of a tree are registered (handles are held) and no object occurs twice, as the statement requires"]
 MUST_SEE = ["twin_pairs_in_tree", "foreign_twins", "non_ancestor_pairs", "index_ge_10", "root_relative_valueerror", "keyerrors", "subtree_trees", "exact_tuple_hits"]
 CONFIG = {
-    "quick": {"shards": 16, "trees": 60, "max_nodes": 28, "watchdog_s": 300},
+    "quick": {"shards": 16, "trees": 400, "max_nodes": 28, "watchdog_s": 300},
     "thorough": {"shards": 32, "trees": 600, "max_nodes": 45, "watchdog_s": 3000},
 }
 
